@@ -29,7 +29,8 @@ structure F2 where
   cntGe    : Bool   -- COUNT ≥ R, Lk
   cntGt    : Bool   -- COUNT > R, Lk
   polGt    : Bool   -- POLICY > R, Lk
-  fresh    : Bool   -- POLICY > every number that was ever current
+  fresh    : Bool   -- POLICY > every number a policy directory was ever given
+  histLe   : Bool   -- POLICY ≥ every number a policy directory was ever given
   wOk      : Bool   -- the POLICY file in the work tree carries $POLICY
   sOk      : Bool   -- … and is staged
   hPol     : Bool   -- the POLICY file of next/src HEAD carries $POLICY
@@ -41,7 +42,8 @@ def F2.clearNext (a : F2) : F2 := { a with hEqR := false, pfP := false, hPol := 
 def tf2 (c : Cmd) (a : F2) (ok : Bool) : Option F2 :=
   match c with
   | .flockNB => some (if ok then { a with holds := true } else a)
-  | .rmrfNext | .mkdirNext | .mvNextTo => some a.clearNext
+  | .rmrfNext | .mkdirNext => some a.clearNext
+  | .mvNextTo => some { a.clearNext with fresh := false, histLe := a.fresh }
   | .gitResetHash => some { a.clearNext with wOk := false, sOk := false }
   | .gitClone => some { a.clearNext with hEqR := a.holds, baseR := a.holds, wOk := false, sOk := false }
   | .testPolicyFile => some (if ok then { a with pfP := a.hEqR } else { a with fcOk := a.hEqR })
@@ -57,7 +59,8 @@ def tf2 (c : Cmd) (a : F2) (ok : Bool) : Option F2 :=
   | .countPick m => some { a with cntGe := m && a.fcGe && a.lcGe, cntGt := false }
   | .countAdd n => some { a with cntGt := a.cntGe && decide (1 ≤ n) }
   | .policyFromCount =>
-    some { a with polGt := a.cntGt, fresh := a.cntGt, wOk := false, sOk := false, hPol := false, pushed := false }
+    some { a with polGt := a.cntGt, fresh := a.cntGt, histLe := a.cntGt, wOk := false, sOk := false, hPol := false,
+                  pushed := false }
   | .writePolicyFile => some { a with wOk := true }
   | .gitAdd => some { a with sOk := a.wOk }
   | .gitCommitPolicy => some { a with hEqR := false, pfP := false, hPol := a.sOk && a.holds, wOk := false, sOk := false }
@@ -69,7 +72,7 @@ def tf2 (c : Cmd) (a : F2) (ok : Bool) : Option F2 :=
     some { a with prevEq := false, lkZero := a.holds, lcOk := false, lcGe := false, cntGe := false, cntGt := false,
                   polGt := false }
   | .lnCurrent =>
-    some { a with fresh := false, prevEq := false, lkZero := false, lcOk := false, lcGe := false, cntGe := false,
+    some { a with prevEq := false, lkZero := false, lcOk := false, lcGe := false, cntGe := false,
                   cntGt := false, polGt := false }
   | .gitRevert | .gitPullPlain => some { a with pfP := false, hPol := false }
   | _ => some a
@@ -77,8 +80,8 @@ def tf2 (c : Cmd) (a : F2) (ok : Bool) : Option F2 :=
 def req2 (c : Cmd) (a : F2) : Bool :=
   match c with
   | .gitPush => a.hEqR || (a.hPol && a.polGt)
-  | .rmCurrent => a.pushed && a.fresh
-  | .lnCurrent => a.fresh
+  | .mvNextTo => a.pushed && a.fresh
+  | .rmCurrent => a.pushed && a.histLe
   | _ => true
 
 def F2.leB (a b : F2) : Bool :=
@@ -86,7 +89,7 @@ def F2.leB (a b : F2) : Bool :=
   (!b.fcOk || a.fcOk) && (!b.rZero || a.rZero) && (!b.fcGe || a.fcGe) && (!b.prevEq || a.prevEq) &&
   (!b.prevSome || a.prevSome) && (!b.lcOk || a.lcOk) &&
   (!b.lkZero || a.lkZero) && (!b.lcGe || a.lcGe) && (!b.cntGe || a.cntGe) && (!b.cntGt || a.cntGt) &&
-  (!b.polGt || a.polGt) && (!b.fresh || a.fresh) && (!b.wOk || a.wOk) && (!b.sOk || a.sOk) &&
+  (!b.polGt || a.polGt) && (!b.fresh || a.fresh) && (!b.histLe || a.histLe) && (!b.wOk || a.wOk) && (!b.sOk || a.sOk) &&
   (!b.hPol || a.hPol) && (!b.pushed || a.pushed)
 
 def numbering : Dom where
@@ -95,10 +98,10 @@ def numbering : Dom where
   meet a b := ⟨a.holds && b.holds, a.hEqR && b.hEqR, a.baseR && b.baseR, a.pfP && b.pfP, a.fcOk && b.fcOk,
     a.rZero && b.rZero,
     a.fcGe && b.fcGe, a.prevEq && b.prevEq, a.prevSome && b.prevSome, a.lcOk && b.lcOk, a.lkZero && b.lkZero, a.lcGe && b.lcGe,
-    a.cntGe && b.cntGe, a.cntGt && b.cntGt, a.polGt && b.polGt, a.fresh && b.fresh, a.wOk && b.wOk, a.sOk && b.sOk,
+    a.cntGe && b.cntGe, a.cntGt && b.cntGt, a.polGt && b.polGt, a.fresh && b.fresh, a.histLe && b.histLe, a.wOk && b.wOk, a.sOk && b.sOk,
     a.hPol && b.hPol, a.pushed && b.pushed⟩
   entry := ⟨false, false, false, false, false, false, false, false, false, false, false, false, false, false, false,
-    false, false, false, false, false⟩
+    false, false, false, false, false, false⟩
   tf := tf2
   req := req2
 
@@ -128,6 +131,7 @@ structure Γ2 (a : F2) (g : G) (p : Proc) : Prop where
   cntGt    : a.cntGt = true → g.lock = some p.pid ∧ ∃ c, p.count = some c ∧ Rg g < c ∧ Lk g < c
   polGt    : a.polGt = true → g.lock = some p.pid ∧ Rg g < p.policy ∧ Lk g < p.policy
   fresh    : a.fresh = true → g.lock = some p.pid ∧ ∀ h ∈ g.hist, h < p.policy
+  histLe   : a.histLe = true → g.lock = some p.pid ∧ ∀ h ∈ g.hist, h ≤ p.policy
   wOk      : a.wOk = true → p.wpol = some p.policy
   sOk      : a.sOk = true → p.spol = some p.policy
   hPol     : a.hPol = true → g.lock = some p.pid ∧ ∃ h, g.nextHead = some h ∧ polOf g h = some p.policy
@@ -135,7 +139,7 @@ structure Γ2 (a : F2) (g : G) (p : Proc) : Prop where
 
 theorem Γ2.mono {a b : F2} {g : G} {p : Proc} (h : Γ2 a g p) (hle : numbering.le a b = true) : Γ2 b g p := by
   simp only [numbering, F2.leB, Bool.and_eq_true, Bool.or_eq_true, Bool.not_eq_true'] at hle
-  obtain ⟨⟨⟨⟨⟨⟨⟨⟨⟨⟨⟨⟨⟨⟨⟨⟨⟨⟨⟨h1, h2⟩, h3⟩, h4⟩, h5⟩, h6⟩, h7⟩, h8⟩, h9⟩, h10⟩, h11⟩, h12⟩, h13⟩, h14⟩, h15⟩, h16⟩, h17⟩, h18⟩, h19⟩, h20⟩ := hle
+  obtain ⟨⟨⟨⟨⟨⟨⟨⟨⟨⟨⟨⟨⟨⟨⟨⟨⟨⟨⟨⟨h1, h2⟩, h3⟩, h4⟩, h5⟩, h6⟩, h7⟩, h8⟩, h9⟩, h10⟩, h11⟩, h12⟩, h13⟩, h14⟩, h15⟩, h16⟩, h17⟩, h18⟩, h19⟩, h20⟩, h21⟩ := hle
   constructor
   · intro hb; exact h.holds (by rcases h1 with h1 | h1 <;> simp_all)
   · intro hb; exact h.hEqR (by rcases h2 with h2 | h2 <;> simp_all)
@@ -153,10 +157,11 @@ theorem Γ2.mono {a b : F2} {g : G} {p : Proc} (h : Γ2 a g p) (hle : numbering.
   · intro hb; exact h.cntGt (by rcases h14 with h14 | h14 <;> simp_all)
   · intro hb; exact h.polGt (by rcases h15 with h15 | h15 <;> simp_all)
   · intro hb; exact h.fresh (by rcases h16 with h16 | h16 <;> simp_all)
-  · intro hb; exact h.wOk (by rcases h17 with h17 | h17 <;> simp_all)
-  · intro hb; exact h.sOk (by rcases h18 with h18 | h18 <;> simp_all)
-  · intro hb; exact h.hPol (by rcases h19 with h19 | h19 <;> simp_all)
-  · intro hb; exact h.pushed (by rcases h20 with h20 | h20 <;> simp_all)
+  · intro hb; exact h.histLe (by rcases h17 with h17 | h17 <;> simp_all)
+  · intro hb; exact h.wOk (by rcases h18 with h18 | h18 <;> simp_all)
+  · intro hb; exact h.sOk (by rcases h19 with h19 | h19 <;> simp_all)
+  · intro hb; exact h.hPol (by rcases h20 with h20 | h20 <;> simp_all)
+  · intro hb; exact h.pushed (by rcases h21 with h21 | h21 <;> simp_all)
 
 /-- Ids are in range (unconditional). -/
 structure VG (g : G) : Prop where
@@ -228,6 +233,7 @@ def F2.kept (a : F2) (c : Cmd) : F2 where
   cntGt    := a.cntGt && !c.wCount && !c.wRemote && !c.wCurrent
   polGt    := a.polGt && !c.wPolicy && !c.wRemote && !c.wCurrent
   fresh    := a.fresh && !c.wPolicy && !c.wHist
+  histLe   := a.histLe && !c.wPolicy && !c.wHist
   wOk      := a.wOk && !c.wStaged && !c.wPolicy
   sOk      := a.sOk && !c.wStaged && !c.wPolicy
   hPol     := a.hPol && !c.wHead && !c.wPolicy
@@ -340,6 +346,13 @@ theorem keep_all {a : F2} {pc : Nat} {t : Bool} (hΓ : Γ2 a g p) (hvg : VG g) (
     obtain ⟨hL, he⟩ := hΓ.fresh h1
     refine ⟨hl hL, ?_⟩
     show ∀ h ∈ _, h < (exec c g p).2.1.policy
+    rw [fr_policy c g p h2, fr_hist c g p h3]; exact he
+  · intro hf
+    simp only [F2.kept, Bool.and_eq_true, Bool.not_eq_true'] at hf
+    obtain ⟨⟨h1, h2⟩, h3⟩ := hf
+    obtain ⟨hL, he⟩ := hΓ.histLe h1
+    refine ⟨hl hL, ?_⟩
+    show ∀ h ∈ _, h ≤ (exec c g p).2.1.policy
     rw [fr_policy c g p h2, fr_hist c g p h3]; exact he
   · intro hf
     simp only [F2.kept, Bool.and_eq_true, Bool.not_eq_true'] at hf
